@@ -1570,6 +1570,11 @@ class ClassicChannel(utils.EventEmitter):
         )
         self._abort_connection_result()
         self._change_state(self.State.CLOSED)
+        # Our own disconnection request, if one is under way, is over too
+        if self.disconnection_result:
+            if not self.disconnection_result.done():
+                self.disconnection_result.set_result(None)
+            self.disconnection_result = None
         self.emit(self.EVENT_CLOSE)
         self.manager.on_channel_closed(self)
 
